@@ -28,7 +28,8 @@ correspondence) and the type checker / planner model (AgModel/Pipeline.lean):
 
 Not proved (stated in DESIGN.md §8 C04 as the target `C04_accept_sound`): that EVERY accepted text
 is a rendering of its AST; the token-coverage oracle of harness/src/props/c04.rs checks it on
-generated strings.  Open finding C04/keyword-without-word-boundary: `glued_keyword_counterexample`.
+generated strings.  The former open finding C04/keyword-without-word-boundary is repaired (repo
+commit 0324001): `C04_keyword_needs_boundary`, `C04_keyword_at_boundary`, `C04_glued_keywords_rejected`.
 -/
 import AgModel.Lang.Parser
 import AgModel.Pipeline
@@ -658,11 +659,38 @@ theorem C04_static_parser_level :
   ⟨static_unknown_operator_1, static_unnamed_capture, static_as_on_parse_regex, static_percentile_0,
    static_percentile_100, static_missing_arg_1, static_missing_arg_5⟩
 
-/-- **Open finding C04/keyword-without-word-boundary**: a keyword glued to the next token is
-accepted as if a blank followed it. -/
-theorem glued_keyword_counterexample :
-    sameAst q!"* | json | countby x" q!"* | json | count by x" = true ∧
-    sameAst q!"* | parse \"*\" asx" q!"* | parse \"*\" as x" = true := by
-  constructor <;> decide
+/-! ### keywords end at a word boundary (finding C04/keyword-without-word-boundary, fixed by repo
+commit 0324001) -/
+
+/-- **C04 (keyword boundary), for every keyword and every continuation.** A keyword directly
+followed by an identifier character is NOT recognised as that keyword (`countby`, `asx`, `onlyx`,
+`trueish`): the keyword parser fails at the offending character, whatever follows. -/
+theorem C04_keyword_needs_boundary (w : String) (c : Char) (rest : List Char) (e : Nat)
+    (hc : isIdentCh c = true) : kw w (w.toList ++ c :: rest) e = .fail (c :: rest) e :=
+  kw_glued w w.toList rfl c rest e hc
+
+/-- … and at a word boundary (end of input, blank, punctuation) it consumes exactly the word. -/
+theorem C04_keyword_at_boundary (w : String) (rest : List Char) (e : Nat) (h : Boundary rest) :
+    kw w (w.toList ++ rest) e = .ok () rest e :=
+  kw_boundary w w.toList rest rfl e h
+
+example : isIdentCh 'b' = true ∧ isIdentCh '_' = true ∧ isIdentCh '5' = true ∧
+    isIdentCh '(' = false ∧ isIdentCh ' ' = false := by decide
+
+-- the glued spellings that used to be accepted as if a blank followed the keyword
+theorem glued_1 : rejects q!"* | json | countby x" := by decide
+theorem glued_2 : rejects q!"* | parse \"*\" asx" := by decide
+theorem glued_3 : isAccept (parseChars q!"* | json | count_distinct(x)by y") = true := by decide
+theorem glued_4 : rejects q!"* | json | sort by x descx" := by decide
+theorem glued_5 : rejects q!"* | json | where a andb" := by decide
+
+/-- **C04 (glued keywords, evaluated).** `countby x`, `parse "*" asx`, `sort by x descx` are rejected;
+`fields onlyx` keeps the field `onlyx` (the mode is optional).  `count_distinct(x)by y` stays
+accepted: `)` ends the word before `by`. -/
+theorem C04_glued_keywords_rejected :
+    rejects q!"* | json | countby x" ∧ rejects q!"* | parse \"*\" asx" ∧
+    rejects q!"* | json | sort by x descx" ∧
+    sameAst q!"* | json | fields onlyx" q!"* | json | fields [\"onlyx\"]" = true :=
+  ⟨glued_1, glued_2, glued_4, by decide⟩
 
 end Ag.C04
